@@ -55,3 +55,13 @@ claim("C11", "DESIGN.md §3 C11",
       "For every schedule and worker count: every Submit / publication of the summary is preceded on all paths by SortReports() and then Dedup() with no report added afterwards; the report comparator keys on path, first/last line, severity, reporter, summary and diagnostics of both operands; no goroutine in checkRules touches the summary and reports are added only by the loop draining the results channel, which is closed after all workers finished; no function reachable from the workers (call-graph closure from scanWorker and all RuleChecker.Check methods, module interfaces resolved by CHA) stores to a package-level variable; guarded state is accessed under its mutex; console/JSON rendering never iterates a map.",
       SA_NOTE,
       "static analysis: must-pass-through ordering on go/cfg, capture analysis of go statements, call-graph closure with CHA on module interfaces for the package-level store check, guarded-field table")
+
+claim("C13", "DESIGN.md §3 C13",
+      "Thin claim: only the arrival-order and completeness clauses. Every successful RangeQuery return is preceded by a sort of the merged ranges placed after the loop that drains the per-slice results, and by MergeRanges whenever more than one range was collected; every error-free slice result is appended unconditionally, a failed slice (other than cancellation) fails the whole query; rangeQuery.Run expands range ends before publishing; MergeRanges sorts what it collects from its map; the order keys on series identity and start. The interval arithmetic (sliceRange, AppendSampleToRanges, Overlaps) is a function of runtime values and is NOT decided.",
+      SA_NOTE,
+      "static analysis: must-pass-through from the fan-in loop's exit block on go/cfg, lexical guard analysis inside the loop")
+
+claim("C16", "DESIGN.md §3 C16",
+      "Thin claim: first clause only. In SeriesCheck.Check the instant probe counts the unstripped selector of the iteration; every Problem literal reachable after it in that iteration requires the `count > 0` false edge and is unreachable from the probe's err != nil branch; instantSeriesCount sums an instant query for its argument; all Prometheus API call sites in promql_series.go follow the C15-R4 error discipline. The second clause (Bug when never present and no producing rule) depends on range data and is NOT decided.",
+      SA_NOTE,
+      "static analysis: within-iteration reachability with cut edges on go/cfg, nil/err dominance at API call sites")
